@@ -695,8 +695,14 @@ impl<'a, R: CharRead> Lexer<'a, R> {
 
         if c == '_' {
             self.skip_char(c);
-            self.scan_for_layout()?;
-            c = self.lookahead_char()?;
+
+            // a digit must follow the underscore: the end of input is as
+            // much an error here as any other character.
+            c = match self.scan_for_layout().and_then(|_| self.lookahead_char()) {
+                Ok(c) => c,
+                Err(e) if e.is_unexpected_eof() => return Err(self.parse_big_int_error()),
+                Err(e) => return Err(e),
+            };
 
             if decimal_digit_char!(c) {
                 Ok(c)
